@@ -473,7 +473,7 @@ def solve_stages(stages, rlimit, timeout_ms, use_cvc5, cex_terms, deadline=None,
         # same assertions is a disagreement between the back ends and makes the obligation undecided)
         label = backend.split("/", 1)[1]
         asserts = dict(stages)[label]
-        r2, secs2, _ = run_cvc5(to_smt2(asserts, None), 30, [])
+        r2, secs2, _ = run_cvc5(to_smt2(asserts, None), 10, [])
         second = r2 if r2 in ("unsat", "sat") else "unknown"
         detail.append(("cvc5-confirm/" + label, r2, secs2))
         if r2 == "sat":
